@@ -3,8 +3,8 @@ package main
 import (
 	"bytes"
 	"encoding/json"
-	"strconv"
 	"sort"
+	"strconv"
 	"sync"
 )
 
